@@ -3,13 +3,15 @@
 Decided clauses (BFGS convergence and the fitted values are numerical runtime quantities: not decided):
   C20.iter    CoverageHistogram::new drives SplitKmer::new(seq, num_bases, qual, k, rc, 0, NoFilter, false) and counts
               +1 per k-mer in the first-k-mer block and in the loop block, over both files; rc = !single_strand
-  C20.index   histogram convention "row i <-> multiplicity i+1" at the writer (counts[count-1] += 1, guarded by
-              < MAX_COUNT) and all readers (plot_hist, log_likelihood, grad_ll, find_cutoff)
+  C20.index   counts initialised with MAX_COUNT rows; the cutoff search is capped by the truncated table length
+              (the convention "row i <-> multiplicity i+1" at the writer is C20.trunc, at the readers C20.func / C20.cutoff)
+  C20.func    numeric interpretation: log_likelihood / grad_ll / MixPoisson cost+gradient equal the stated mixture and its
+              gradient; plot_hist prints (i+1, counts[i], density at i+1, Error iff i+1 < cutoff) (cov_func.py)
   C20.trunc   trailing rows are dropped while < MIN_FREQ, MIN_FREQ = 50
   C20.grad    symbolic: d/dw0 and d/dc of count * lse(a, b) equal the per-row terms of grad_ll (sympy; the result of
               f64::max inside lse kept as a free symbol); cost and gradient both negate
   C20.cutoff  find_cutoff returns the least c >= 1 (below the cap) whose root a(c) - b(c) is negative, else the cap:
-              decided for all sign patterns of length <= 6 and caps 1..7; label is "Error" iff idx+1 < cutoff
+              decided for all sign patterns of length <= 6 and caps 1..7
 """
 import itertools
 import json
@@ -129,6 +131,9 @@ def run(facts, chk, tier, only=None):
 
     from . import skiter
     chk.guard('C20.func', 'C20.func:counts', lambda: skiter.check_cov_counts(facts, chk, 'C20.func', tier))
+    from . import cov_func
+    chk.guard('C20.func', 'C20.func:likelihood:run', lambda: cov_func.check_likelihood(facts, chk, 'C20.func', tier))
+    chk.guard('C20.func', 'C20.func:plot_hist:run', lambda: cov_func.check_plot_hist(facts, chk, 'C20.func', tier))
     from . import c01
     chk.guard('C20.window', 'C20.window:run', lambda: c01.check_guards(facts, chk, 'C20.window'))
 
@@ -144,33 +149,6 @@ def run(facts, chk, tier, only=None):
         fe = [(bb, t) for bb, t in new.calls() if (t.callee.name or '') == 'std::vec::from_elem']
         ok_init = len(fe) == 1 and ebn.operand(fe[0][1].args[0]) == ('const', 0, 'u32') and (show(ebn.operand(fe[0][1].args[1])) in ('MAX_COUNT', str(mc)))
         res.append(('init', ok_init, 'counts = vec![0; MAX_COUNT]'))
-        # readers
-        for fn in ('log_likelihood', 'grad_ll'):
-            b = facts.fn(CV + fn)
-            e2 = ExprBuilder(b, through_vars=False)
-            l = b.locals_named('i_f64')
-            if len(l) != 1:
-                raise AnchorLost('%s: local i_f64' % fn)
-            ds = b.defs_of(l[0])
-            ex = e2.rvalue(ds[0][2].rv)
-            ok = ex[0] == 'bin' and ex[1] == 'Add' and ex[3] == ('fconst', 1.0) and show(ex[2]).startswith('(i as f64')
-            res.append((fn, ok, '%s uses multiplicity %s for row i' % (fn, show(ex))))
-        ph = facts.fn(CH + '::plot_hist')
-        e3 = ExprBuilder(ph, through_vars=False)
-        adds = [e3.rvalue(s.rv) for b in ph.blocks if b.idx in ph.live_blocks() for s in b.stmts if s.k == 'assign' and s.rv.k == 'use' and
-                e3.operand(s.rv.ops[0])[0] == 'bin' and e3.operand(s.rv.ops[0])[1] == 'Add']
-        adds += [e3.rvalue(s.rv) for b in ph.blocks if b.idx in ph.live_blocks() for s in b.stmts if s.k == 'assign' and s.rv.k == 'binop' and s.rv.op == 'Add']
-        shown = [show(x) for x in adds]
-        ok_ph = shown.count('(idx + 1)') >= 2 and sum(1 for s in shown if s == '((idx as f64) + 1.0)') >= 2
-        lab = [b.idx for b in ph.blocks if b.idx in ph.live_blocks() and b.term.k == 'switch' and show(e3.operand(b.term.discr)).startswith('((idx + 1) <')]
-        res.append(('plot_hist', ok_ph and len(lab) == 1, 'plot_hist prints idx+1, evaluates the density at idx+1 and labels by (idx + 1) < cutoff: %s' % sorted(set(shown))))
-        fc = facts.fn(CV + 'find_cutoff')
-        e4 = ExprBuilder(fc, through_vars=False)
-        cl = fc.locals_named('cutoff')[0]
-        ds = fc.defs_of(cl)
-        init = [e4.rvalue(n.rv) for _, i, n in ds if i != 'term']
-        ok_fc = ('const', 1, 'usize') in init and any(x[0] == 'bin' and x[1] == 'Add' and x[3] == ('const', 1, 'usize') for x in init)
-        res.append(('find_cutoff', ok_fc, 'find_cutoff starts at 1 and steps by 1'))
         # cap = counts.len() (after truncation)
         fcc = [(bb, t) for bb, t in fh.calls() if (t.callee.name or '') == CV + 'find_cutoff']
         ok_cap = len(fcc) == 1 and 'len(' in show(ebt.operand(fcc[0][1].args[1])) and ('.%d' % facts.field_index(CH, 'counts')) in show(ebt.operand(fcc[0][1].args[1]))
@@ -178,7 +156,7 @@ def run(facts, chk, tier, only=None):
         return res
     r = chk.guard('C20.index', 'C20.index:scan', index)
     if r is not None:
-        chk.floor('C20.index', 'index-convention sites', len(r), 6)
+        chk.floor('C20.index', 'index-convention sites', len(r), 2)
         for nm, ok, why in r:
             if ok:
                 chk.ok('C20.index', 'C20.index:%s' % nm, CV, why)
@@ -317,7 +295,7 @@ def run(facts, chk, tier, only=None):
                 if s.k == 'assign' and s.rv.k == 'aggregate' and s.rv.j['kind'].get('k') == 'array':
                     order = [show(ExprBuilder(g, through_vars=False).operand(o)) for o in s.rv.ops]
         return res, neg_cost, neg_grad, order
-    r = chk.guard('C20.grad', 'C20.grad:identity', grad)
+    r = chk.guard_soft('C20.grad', 'C20.grad:identity', grad, twins=['C20.func:likelihood'])
     if r is not None:
         res, neg_cost, neg_grad, order = r
         if res.get('ok'):
@@ -361,44 +339,6 @@ def run(facts, chk, tier, only=None):
                           detail='(negative-root pattern, cap, got, expected) = %s' % (bad[0],))
         else:
             chk.ok('C20.cutoff', 'C20.cutoff:find_cutoff', CV + 'find_cutoff', 'least c >= 1 below the cap with a(c) - b(c) < 0, else the cap: %d (pattern, cap) cases' % n, evals=n)
-
-    def label():
-        from ..cond import edge_conds, eval_formula, eval_expr, Unevaluable
-        ph = facts.fn(CH + '::plot_hist')
-        eb = ExprBuilder(ph, through_vars=False)
-        ci = facts.field_index(CH, 'cutoff')
-
-        def lab(bb):
-            for s in ph.blocks[bb].stmts:
-                if s.k == 'assign' and s.rv.k == 'use' and s.rv.ops[0].j.get('str'):
-                    return s.rv.ops[0].j['str']
-            return None
-        sw = [b.idx for b in ph.blocks if b.idx in ph.live_blocks() and b.term.k == 'switch' and
-              {lab(x) for x in set(b.term.succs())} == {'Error', 'Coverage'}]
-        if len(sw) != 1:
-            raise AnchorLost('plot_hist: label decision not found')
-        bad = []
-        for s, c in edge_conds(ph, eb, sw[0]):
-            for idx in range(0, 6):
-                for cut in range(0, 8):
-                    def leaf(x, idx=idx, cut=cut):
-                        if x[0] == 'var' and x[2] == 'idx':
-                            return idx
-                        if x[0] == 'field' and x[2] == ci:
-                            return cut
-                        raise Unevaluable()
-                    if bool(eval_formula(c, lambda ex: eval_expr(ex, leaf))):
-                        want = 'Error' if (idx + 1) < cut else 'Coverage'
-                        if lab(s) != want:
-                            bad.append((idx, cut, lab(s), want))
-        return not bad, 'row idx (multiplicity idx+1) labelled Error iff idx+1 < cutoff (48 grid points): %s' % (bad[:2],)
-    r = chk.guard('C20.cutoff', 'C20.cutoff:label', label)
-    if r is not None:
-        ok, why = r
-        if ok:
-            chk.ok('C20.cutoff', 'C20.cutoff:label', CH + '::plot_hist', why)
-        else:
-            chk.violation('C20.cutoff', 'C20.cutoff:label', where=CH + '::plot_hist', detail='label rule is ' + why)
 
 
 def _lltree(e, body):
